@@ -47,7 +47,12 @@ def sdv__str(glob_pattern: StringSdv) -> MatcherSdv[str]:
 
 
 def _match_path(model: Path, pattern: str) -> bool:
-    return model.match(pattern)
+    try:
+        return model.match(pattern)
+    except ValueError:
+        # pathlib does not accept a pattern without components ('' and '.').
+        # No path matches such a pattern.
+        return False
 
 
 def _match_str(model: str, pattern: str) -> bool:
